@@ -31,15 +31,16 @@ def e2e_case(rec):
     set_keys = {k for k in KEYS for l in (cli, tc, doc, fmt) if sc(l, k) != "U"}
     env_set = any(l["env"][e] != "U" for l in (cli, tc, doc, fmt) for e in ("X", "Y"))
     if env_set and not set_keys and all(fmt["env"][e] == "U" and cli["env"][e] == "U" for e in ("X", "Y")):
-        val = lambda e, v: "" if v == "U" else f"{e}-{'a' if v == 'A' else 'b'}-val"
+        # (value B of the variable Y is the EMPTY string: set, but empty - the command tells that from "not set")
+        val = lambda e, v: "unset" if v == "U" else "" if (e, v) == ("Y", "B") else f"{e}-{'a' if v == 'A' else 'b'}-val"
         fm = []
         if any(doc["env"][e] != "U" for e in ("X", "Y")):
-            fm = ["defaults:", "  environment:"] + [f"    {e}: {val(e, doc['env'][e])}" for e in ("X", "Y") if doc["env"][e] != "U"]
+            fm = ["defaults:", "  environment:"] + [f'    {e}: "{val(e, doc["env"][e])}"' for e in ("X", "Y") if doc["env"][e] != "U"]
         inline = ""
         if any(tc["env"][e] != "U" for e in ("X", "Y")):
             inline = "{environment: {" + ", ".join(f'{e}: "{val(e, tc["env"][e])}"' for e in ("X", "Y") if tc["env"][e] != "U") + "}}"
         eff = {e: highest([cli["env"][e], tc["env"][e], doc["env"][e], fmt["env"][e]]) for e in ("X", "Y")}
-        return fm, inline, [], "printf 'X=%s Y=%s\\n' \"$X\" \"$Y\"", [f"X={val('X', eff['X'])} Y={val('Y', eff['Y'])}"], 0
+        return fm, inline, [], "printf 'X=%s Y=%s\\n' \"${X-unset}\" \"${Y-unset}\"", [f"X={val('X', eff['X'])} Y={val('Y', eff['Y'])}"], 0
     # two flags at once (only the command line layer): they must not cancel each other
     if not env_set and set_keys == {"output_stream", "keep_crlf"} and all(sc(l, k2) == "U" for l in (tc, doc, fmt) for k2 in set_keys) \
             and sc(cli, "output_stream") == "B":
